@@ -119,7 +119,8 @@ def run_impl(pid, tier):
             elif (e or {}).get("singleton") != oracle["esingle"]:
                 problems.append(f"E::get() addresses {(e or {}).get('singleton')}, declared {oracle['esingle']}")
             elif oracle["esingle"] != NONE:
-                if e.get("singleton_cast") != {"k": "cptr", "t": SELF} or e.get("singleton_derefs") != 1 or e.get("singleton_kind") != "Self":
+                # `*(A as *const Self)` (one dereference) or `ptr::read(A as *const Self)` (none written)
+                if e.get("singleton_cast") != {"k": "cptr", "t": SELF} or e.get("singleton_derefs") not in (0, 1) or e.get("singleton_kind") != "Self":
                     problems.append(f"E::get() does not return the value stored at the address (cast {e.get('singleton_cast')}, "
                                     f"derefs {e.get('singleton_derefs')}, returns {e.get('singleton_kind')})")
             if oracle.get("osingle", NONE) != NONE:
